@@ -29,6 +29,9 @@ Proof.
   - apply IH. intros y Hy. apply H. right. exact Hy.
 Qed.
 
+Lemma Forall_repeat_all {B} (Q : B -> Prop) (x : B) (n : nat) : Q x -> Forall Q (repeat x n).
+Proof. intro H. induction n; cbn [repeat]; constructor; assumption. Qed.
+
 (* decompose a goal [Forall Q errs] along the shape of [errs]; [fin] proves [Q e] for a single error *)
 Ltac allq fin :=
   repeat first
@@ -38,6 +41,7 @@ Ltac allq fin :=
     | apply Forall_cons; [solve [fin]|]
     | apply Forall_flat_map_all; intros
     | apply Forall_map_all; intros; solve [fin]
+    | apply Forall_repeat_all; solve [fin]
     | match goal with
       | |- Forall _ (if ?b then _ else _) => destruct b eqn:?
       | |- Forall _ (match ?x with _ => _ end) => destruct x eqn:?
